@@ -2,6 +2,7 @@ import Goat.Model.JWT
 import Goat.Model.JWTClaims
 import Goat.Model.Binding
 import GoatProofs.C07JWS
+import GoatProofs.Lemmas.C07NumericDate
 /-
 C07 over the JWT models (Goat/Model/JWT.lean by C01, Goat/Model/JWTClaims.lean by C04/C10) and over
 the library's own key finders and the algorithm registry (Goat/Model/Binding.lean by C03).
@@ -97,6 +98,15 @@ theorem no_panic_jwt_claims_parse_partial (cfg : Config) (data : Bytes) : NoPani
   nopanic using (no_panic_jwt_parseClaims_partial hnd)
 
 end claims
+
+/-- **no_panic_jwt_parseClaims** (full statement): the claims step of jwt.Parser.Parse on every
+    payload — aud of any shape, exp/nbf/iat of any JSON type and any number text -/
+theorem no_panic_jwt_parseClaims (payload : Bytes) : NoPanic (Model.JWTClaims.parseClaims payload) :=
+  no_panic_jwt_parseClaims_partial ND.decode_noPanic payload
+
+theorem no_panic_jwt_claims_parse (cfg : Model.JWTClaims.Config) (data : Bytes) :
+    NoPanic (Model.JWTClaims.parse cfg data) :=
+  no_panic_jwt_claims_parse_partial ND.decode_noPanic cfg data
 
 /-- `encodeClaims` (re-serialisation of parsed claims) never panics: `claimsMap` has no panic outcome -/
 theorem claimsMap_np (c : Model.JWTClaims.Claims) : (Model.JWTClaims.claimsMap c).NoPanic := by
